@@ -29,7 +29,7 @@ fn dispatch(routine: &str, t: &mut Toks) -> String {
         | "weighted_sum_axis" | "weighted_var_axis" | "weighted_std_axis" | "cov"
         | "pearson_correlation" | "count_eq" | "count_neq" | "sq_l2_dist" | "l1_dist" | "linf_dist"
         | "l2_dist" | "mean_abs_err" | "mean_sq_err" | "root_mean_sq_err"
-        | "peak_signal_to_noise_ratio" => r_num::run(routine, t),
+        | "peak_signal_to_noise_ratio" | "libm" => r_num::run(routine, t),
         "profile" => {
             if cfg!(debug_assertions) {
                 "OK debug".to_string()
